@@ -202,8 +202,10 @@ func (p *PostingsList) iterator(includeFreq, includeNorm, includeLocs bool,
 		return rv
 	}
 
-	// "general" encoding, check if empty
-	if p.postings == nil {
+	// "general" encoding, check if empty; a reused list that was last
+	// initialized by a dictionary without a segment (a field with no
+	// dictionary) keeps its cleared bitmap but has no data to read
+	if p.postings == nil || p.sb == nil {
 		return rv
 	}
 
